@@ -6,4 +6,8 @@ mkdir -p evidence replays .cache .deps
 if ! /venv/bin/python -c "import hypothesis" 2>/dev/null; then
   /venv/bin/pip install --no-index --find-links /opt/veriftools/wheels --target .deps hypothesis
 fi
+# atheris (coverage-guided fuzzing, second engine of C16); optional: the check runs without it
+if ! PYTHONPATH=.deps /venv/bin/python -c "import atheris" 2>/dev/null; then
+  /venv/bin/pip install -q --no-index --find-links /opt/veriftools/wheels --target .deps atheris || echo "atheris not installable: C16 runs without its second engine"
+fi
 PYTHONPATH=.deps /venv/bin/python -c "import hypothesis, numpy, scipy, jax; print('setup ok: hypothesis', hypothesis.__version__)"
